@@ -25,7 +25,7 @@ LEVELS = {
     'quick': [
         {'name': 'L1-N3-M2-K2-reps4', 'N': 3, 'M': 2, 'K': 2, 'reps': 4, 'qdelay': 1, 'budget_s': 130},
         {'name': 'L2-N4-M2-K2-reps1', 'N': 4, 'M': 2, 'K': 2, 'reps': 1, 'Dpos': 1, 'budget_s': 90},
-        {'name': 'L3-T1hist-M2-K3-reps6', 'templates': ['T1s', 'T1d'], 'M': 2, 'K': 3, 'hist': 1, 'guards': 0,
+        {'name': 'L3-T1hist-M2-K3', 'templates': ['T1s', 'T1d'], 'M': 2, 'K': 3, 'hist': 1, 'guards': 0,
          'reps': 4, 'Dpos': 1, 'budget_s': 80},
         {'name': 'L5-fixed-history-from-inside-K4', 'fixed': 1, 'K': 4, 'guards': 0, 'Dpos': 1, 'budget_s': 60},
         {'name': 'L4-T1hist-fromInside-M2-K3', 'templates': ['T1s', 'T1d'], 'M': 2, 'K': 3, 'hist': 1, 'guards': 0,
